@@ -313,10 +313,10 @@ func CheckOffline(in OfflineInput, sit func(prop, s string)) []Finding {
 
 	// ---- C04: effect of acknowledged cancels ----
 	type call struct {
-		job      string
-		callSeq  int64
-		retSeq   int64
-		res      string
+		job     string
+		callSeq int64
+		retSeq  int64
+		res     string
 	}
 	var cancels []call
 	pending := map[int64]*call{}
